@@ -35,7 +35,16 @@ public:
 
   explicit ATANExpression(std::vector<Expression*>&& args) : BuiltinExpression(FUNC_ATAN, std::move(args)) { }
 
-  const Type& type(Context& ctx) const override { return Value::type_numeric; }
+  const Type& type(Context& ctx) const override
+  {
+    const Type& t0 = _args[0]->type(ctx);
+    if (t0 == Type::IMAGINARY)
+      return Value::type_imaginary;
+    /* an opaque argument can be complex at run time */
+    if (t0 == Type::NO_TYPE)
+      return Value::type_no_type;
+    return Value::type_numeric;
+  }
 
   Value& value(Context& ctx) const override;
 
